@@ -160,3 +160,162 @@ func VerifC03OutKeys(h *verifh.H) {
 	check(all, "paged")
 	h.Observe("n", len(got))
 }
+
+// VerifC03InKeys: the incoming direction of GetRelatedAtTime over an ARBITRARY
+// sorted set of incoming reference-index keys of one target entity — symbolic
+// referencing entity, time, predicate, tombstone flag and dataset per key —
+// with a symbolic query instant, predicate or wildcard, scope and deleted
+// dataset. Same key-level oracle as VerifC03OutKeys; single call and paged.
+// The class of the known finding C03-incoming-tombstone (wildcard query and a
+// referencing entity with in-scope keys under two predicates) is tagged.
+func VerifC03InKeys(h *verifh.H) {
+	hub := VerifNewHub(h)
+	dsA, err := hub.Dsm.CreateDataset("a", nil)
+	h.Assert(err == nil, "create")
+	dsB, err := hub.Dsm.CreateDataset("b", nil)
+	h.Assert(err == nil, "create")
+	db := hub.Store.database
+	const target = uint64(777)
+	n := 1 + h.Choice("n", h.Param("maxKeys", 3))
+	maxPred := h.Param("preds", 2)
+	keys := make([]vRefKey, n)
+	raw := make([][]byte, n)
+	mk := func(tgt, src, tm, pred uint64, del bool, ds uint32) []byte {
+		b := make([]byte, 40)
+		binary.BigEndian.PutUint16(b, IncomingRefIndex)
+		binary.BigEndian.PutUint64(b[2:], tgt)
+		binary.BigEndian.PutUint64(b[10:], src)
+		binary.BigEndian.PutUint64(b[18:], tm)
+		binary.BigEndian.PutUint64(b[26:], pred)
+		if del {
+			binary.BigEndian.PutUint16(b[34:], 1)
+		}
+		binary.BigEndian.PutUint32(b[36:], ds)
+		return b
+	}
+	for i := 0; i < n; i++ {
+		k := vRefKey{
+			time:  uint64(h.Int("time", 1, 4)),
+			pred:  uint64(h.Int("pred", 1, maxPred)),
+			other: uint64(h.Int("src", 5, 6)),
+			del:   h.Bool("del"),
+		}
+		k.ds = dsA.InternalID
+		if h.Bool("inB") {
+			k.ds = dsB.InternalID
+		}
+		b := mk(target, k.other, k.time, k.pred, k.del, k.ds)
+		if i > 0 {
+			h.Assume(h.KeyLess(raw[i-1], b)) // sorted, distinct
+		}
+		keys[i], raw[i] = k, b
+		h.Preload(db, b, []byte{})
+	}
+	for _, other := range []uint64{target - 1, target + 1} {
+		h.Preload(db, mk(other, 9, 2, 1, false, dsA.InternalID), []byte{})
+	}
+	at := int64(h.Int("at", 0, 5))
+	qpred := uint64(h.Int("qpred", 0, maxPred))
+	var scope []uint32
+	switch h.Choice("scope", 3) {
+	case 1:
+		scope = []uint32{dsA.InternalID}
+	case 2:
+		scope = []uint32{dsB.InternalID}
+	}
+	deletedB := h.Choice("deletedB", 2) == 1
+	if deletedB {
+		hub.Store.deletedDatasets = map[uint32]bool{dsB.InternalID: true}
+	}
+	inScope := func(ds uint32) bool {
+		if deletedB && ds == dsB.InternalID {
+			return false
+		}
+		if len(scope) == 0 {
+			return true
+		}
+		return scope[0] == ds
+	}
+	prefix := make([]byte, 10)
+	binary.BigEndian.PutUint16(prefix, IncomingRefIndex)
+	binary.BigEndian.PutUint64(prefix[2:], target)
+	// class of the known finding: wildcard query, one referencing entity with visible keys
+	// under two different predicates
+	var multi []bool
+	for i := range keys {
+		for j := i + 1; j < n; j++ {
+			multi = append(multi, h.And(keys[i].other == keys[j].other, keys[i].pred != keys[j].pred,
+				int64(keys[i].time) <= at, int64(keys[j].time) <= at, inScope(keys[i].ds), inScope(keys[j].ds)))
+		}
+	}
+	knownClass := h.And(qpred == 0, h.Or(multi...))
+
+	from := &RelatedFrom{RelationIndexFromKey: prefix, Predicate: qpred, Inverse: true, Datasets: scope, At: at}
+	got, cont, err := hub.Store.GetRelatedAtTime(from, 0)
+	h.Assert(err == nil, "unlimited query succeeds")
+	// the incoming scan may hand out a continuation although everything was returned; following
+	// it must add nothing (an extra empty page is not a violation of the property)
+	for page := 0; cont != nil && page < 4; page++ {
+		more, next, err := hub.Store.GetRelatedAtTime(cont, 0)
+		h.Assert(err == nil, "continuation of the unlimited query readable")
+		got = append(got, more...)
+		cont = next
+	}
+	h.Assert(cont == nil, "the unlimited query terminates")
+
+	check := func(results []qresult, what string) {
+		for p := uint64(1); p <= uint64(maxPred); p++ {
+			for r := uint64(5); r <= 6; r++ {
+				var lives []bool
+				for _, ds := range []uint32{dsA.InternalID, dsB.InternalID} {
+					if !inScope(ds) {
+						continue
+					}
+					for i := range keys {
+						ki := keys[i]
+						mi := h.And(ki.pred == p, ki.other == r, ki.ds == ds, int64(ki.time) <= at, !ki.del)
+						var newer []bool
+						for j := range keys {
+							if j == i {
+								continue
+							}
+							kj := keys[j]
+							newer = append(newer, h.And(kj.pred == p, kj.other == r, kj.ds == ds, int64(kj.time) <= at,
+								h.Or(kj.time > ki.time, h.And(kj.time == ki.time, kj.del, !ki.del))))
+						}
+						lives = append(lives, h.And(mi, h.Not(h.Or(newer...))))
+					}
+				}
+				want := h.And(h.Or(lives...), h.Or(qpred == 0, qpred == p))
+				var hits []bool
+				for _, q := range results {
+					hits = append(hits, h.And(q.PredicateID == p, q.EntityID == r))
+				}
+				h.Known("C03-incoming-tombstone", knownClass)
+				h.Assert(h.Iff(h.Or(hits...), want), what+": (predicate, referencing entity) is returned iff its newest in-scope key is live")
+				for a := 0; a < len(hits); a++ {
+					for b := a + 1; b < len(hits); b++ {
+						h.Known("C03-incoming-tombstone", knownClass)
+						h.Assert(h.Not(h.And(hits[a], hits[b])), what+": nothing is returned twice")
+					}
+				}
+			}
+		}
+		for _, q := range results {
+			h.Assert(h.And(q.EntityID != 9), what+": keys of other target entities are never returned")
+		}
+	}
+	check(got, "single call")
+	limit := 1 + h.Choice("limit", 2)
+	var all []qresult
+	cur := &RelatedFrom{RelationIndexFromKey: prefix, Predicate: qpred, Inverse: true, Datasets: scope, At: at}
+	for page := 0; cur != nil && page < 8; page++ {
+		res, next, err := hub.Store.GetRelatedAtTime(cur, limit)
+		h.Assert(err == nil, "page readable")
+		all = append(all, res...)
+		cur = next
+	}
+	h.Assert(cur == nil, "paging terminates")
+	check(all, "paged")
+	h.Observe("n", len(got))
+}
